@@ -34,7 +34,7 @@ import (
 	"verif/harness/lib"
 )
 
-const nObjects = 10
+const nObjects = 24
 
 type obj struct {
 	data []byte
@@ -43,12 +43,24 @@ type obj struct {
 
 var universe []obj
 
+// The universe: 24 blobs whose ids fall into four fan-out buckets (six per
+// bucket), so that a pack usually holds several ids sharing the first byte —
+// the situation in which a multi-byte prefix search stops at a larger,
+// non-matching hash.  props/C23.py computes the same list.
+var buckets = []byte{0x3a, 0x3b, 0x7c, 0xe1}
+
 func init() {
 	oh := plumbing.FromObjectFormat(formatcfg.SHA1)
-	for k := 0; k < nObjects; k++ {
+	count := map[byte]int{}
+	for i := 0; len(universe) < nObjects; i++ {
 		var o obj
-		o.data = bytes.Repeat([]byte(fmt.Sprintf("object-%d\n", k)), 1+7*k)
+		o.data = bytes.Repeat([]byte(fmt.Sprintf("object-%d\n", i)), 1+i%5)
 		o.h, _ = oh.Compute(plumbing.BlobObject, o.data)
+		b := o.h.Bytes()[0]
+		if bytes.IndexByte(buckets, b) < 0 || count[b] >= nObjects/len(buckets) {
+			continue
+		}
+		count[b]++
 		universe = append(universe, o)
 	}
 }
@@ -73,7 +85,7 @@ func memObj(k int) plumbing.EncodedObject {
 	return o
 }
 
-func buildPack(ks []int) []byte {
+func buildPack(ks []int) ([]byte, plumbing.Hash) {
 	ms := memory.NewStorage()
 	var hs []plumbing.Hash
 	for _, k := range ks {
@@ -84,10 +96,11 @@ func buildPack(ks []int) []byte {
 		hs = append(hs, h)
 	}
 	var buf bytes.Buffer
-	if _, err := packfile.NewEncoder(&buf, ms, false).Encode(hs, 0); err != nil {
+	ph, err := packfile.NewEncoder(&buf, ms, false).Encode(hs, 0)
+	if err != nil {
 		panic(err)
 	}
-	return buf.Bytes()
+	return buf.Bytes(), ph
 }
 
 func writePack(s *filesystem.ObjectStorage, m uint64) error {
@@ -95,7 +108,8 @@ func writePack(s *filesystem.ObjectStorage, m uint64) error {
 	if err != nil {
 		return err
 	}
-	if _, err := io.Copy(w, bytes.NewReader(buildPack(unmask(m)))); err != nil {
+	data, _ := buildPack(unmask(m))
+	if _, err := io.Copy(w, bytes.NewReader(data)); err != nil {
 		w.Close()
 		return err
 	}
@@ -164,8 +178,188 @@ func read(s *filesystem.ObjectStorage, op string, k int) (bool, error) {
 	}
 }
 
+// prefixOf: the first n bytes of object k's id; miss = last byte decremented (python makes sure no object of
+// the universe carries that prefix)
+func prefixOf(k, n int, miss bool) []byte {
+	p := append([]byte(nil), universe[k].h.Bytes()[:n]...)
+	if miss {
+		p[n-1]--
+	}
+	return p
+}
+
+// missOK: no id of the universe carries the near-miss prefix of (k, n)
+func missOK(k, n int) bool {
+	p := prefixOf(k, n, true)
+	for _, o := range universe {
+		if bytes.HasPrefix(o.h.Bytes(), p) {
+			return false
+		}
+	}
+	return true
+}
+
+// prefixSearch: HashesWithPrefix must return ids carrying the prefix, each once; reports whether k's id is among them
+func prefixSearch(s *filesystem.ObjectStorage, k, n int, miss bool) (bool, error) {
+	p := prefixOf(k, n, miss)
+	hs, err := s.HashesWithPrefix(p)
+	if err != nil {
+		return false, err
+	}
+	seen := map[plumbing.Hash]bool{}
+	found := false
+	for _, h := range hs {
+		if !bytes.HasPrefix(h.Bytes(), p) {
+			return false, fmt.Errorf("HashesWithPrefix(%x) returned %s", p, h)
+		}
+		if seen[h] {
+			return false, fmt.Errorf("HashesWithPrefix(%x) returned %s twice", p, h)
+		}
+		seen[h] = true
+		if h == universe[k].h {
+			found = true
+		}
+	}
+	if miss && len(hs) > 0 {
+		return false, fmt.Errorf("HashesWithPrefix(%x) returned %d ids for a prefix nothing carries", p, len(hs))
+	}
+	return found, nil
+}
+
+// refsProbe: deterministic reference accounting on the published LazyIndexes.  At quiescence no reference may be
+// left; then, with one harness pin per .idx, every prefix search must leave exactly the pin behind (a release too
+// many anywhere takes the pin).
+func refsProbe(a *filesystem.ObjectStorage, es *errs, all uint64, extra [][]byte) {
+	lis, err := a.VerifLazyIndexes()
+	if err != nil {
+		es.add("refs accounting: cannot list indexes: %v", err)
+		return
+	}
+	for h, li := range lis {
+		if n := li.VerifIdxRefs(); n != 0 {
+			es.add("refs accounting: .idx of pack %s holds %d references at quiescence, want 0", h, n)
+		}
+		if n := li.VerifRevRefs(); n != 0 {
+			es.add("refs accounting: .rev of pack %s holds %d references at quiescence, want 0", h, n)
+		}
+	}
+	for _, li := range lis {
+		if err := li.VerifPinIdx(); err != nil {
+			es.add("refs accounting: cannot pin: %v", err)
+			return
+		}
+	}
+	defer func() {
+		for _, li := range lis {
+			li.VerifUnpinIdx()
+		}
+	}()
+	var prefixes [][]byte
+	prefixes = append(prefixes, extra...)
+	for _, k := range unmask(all) {
+		for n := 2; n <= 3; n++ {
+			prefixes = append(prefixes, prefixOf(k, n, false))
+			if missOK(k, n) {
+				prefixes = append(prefixes, prefixOf(k, n, true))
+			}
+		}
+	}
+	for _, p := range prefixes {
+		if _, err := a.HashesWithPrefix(p); err != nil {
+			es.add("refs accounting: HashesWithPrefix(%x): %v", p, err)
+			return
+		}
+		for h, li := range lis {
+			if n := li.VerifIdxRefs(); n != 1 {
+				es.add("refs accounting: after HashesWithPrefix(%x) the .idx of pack %s holds %d references, want 1 (the harness pin): a reference was released twice or leaked", p, h, n)
+				return
+			}
+		}
+	}
+}
+
+// iterMode: ONE goroutine drives LazyIndex.EntriesWithPrefix on one pack step by step; after every step the
+// answer and the reference count of the .idx
+func iterMode(c lib.Case) (lib.Out, any) {
+	dir, err := os.MkdirTemp("", "verif-c23i-")
+	if err != nil {
+		panic(err)
+	}
+	defer os.RemoveAll(dir)
+	st0 := filesystem.NewStorageWithOptions(osfs.New(dir), cache.NewObjectLRUDefault(), filesystem.Options{})
+	if err := st0.Init(); err != nil {
+		panic(err)
+	}
+	var want plumbing.Hash
+	for i, p := range c.L("packs") {
+		m := lib.Case{"p": p}.U("p")
+		if err := writePack(st0.ObjectStorage, m); err != nil {
+			panic(err)
+		}
+		if i == int(c.I("pi")) {
+			_, want = buildPack(unmask(m))
+		}
+	}
+	st0.Close()
+	opts := filesystem.Options{}
+	if p := c.I("pool"); p >= 0 {
+		opts.Pool = fdpool.New(int(p))
+	}
+	a := filesystem.NewStorageWithOptions(osfs.New(dir), nil, opts)
+	defer a.Close()
+	lis, err := a.ObjectStorage.VerifLazyIndexes()
+	if err != nil {
+		return lib.Err("other"), err.Error()
+	}
+	li := lis[want]
+	if li == nil {
+		return lib.Err("other"), "pack not found among the lazy indexes"
+	}
+	pins := int(c.I("pins"))
+	for i := 0; i < pins; i++ {
+		if err := li.VerifPinIdx(); err != nil {
+			return lib.Err("other"), err.Error()
+		}
+	}
+	defer func() {
+		for i := 0; i < pins; i++ {
+			li.VerifUnpinIdx()
+		}
+	}()
+	it, err := li.EntriesWithPrefix(c.B("prefix"))
+	if err != nil {
+		return lib.Err("other"), err.Error()
+	}
+	outs := []lib.Out{lib.List(lib.Sym("made"), lib.Int(int64(li.VerifIdxRefs())))}
+	for _, o := range c.SL("ops") {
+		var ans string
+		if o == "next" {
+			e, err := it.Next()
+			switch {
+			case err == nil && bytes.HasPrefix(e.Hash.Bytes(), c.B("prefix")):
+				ans = "entry"
+			case err == io.EOF:
+				ans = "eof"
+			default:
+				ans = "bad"
+			}
+		} else {
+			if err := it.Close(); err != nil {
+				ans = "bad"
+			} else {
+				ans = "closed"
+			}
+		}
+		outs = append(outs, lib.List(lib.Sym(ans), lib.Int(int64(li.VerifIdxRefs()))))
+	}
+	return lib.List(outs...), nil
+}
+
 func main() {
 	lib.Main(func(c lib.Case) (lib.Out, any) {
+		if c.S("mode") == "iter" {
+			return iterMode(c)
+		}
 		dir, err := os.MkdirTemp("", "verif-c23-")
 		if err != nil {
 			panic(err)
@@ -280,6 +474,19 @@ func main() {
 					} else {
 						results[i] = lib.Sym("any")
 					}
+				case "prefix":
+					k := int(tc.I("k"))
+					found, err := prefixSearch(a.ObjectStorage, k, int(tc.I("n")), tc.Bool("miss"))
+					if err != nil {
+						es.add("prefix search %x: %v", prefixOf(k, int(tc.I("n")), tc.Bool("miss")), err)
+						results[i] = lib.Err("other")
+						return
+					}
+					if tc.Bool("miss") || init&(1<<k) != 0 || final&(1<<k) == 0 {
+						results[i] = lib.Bool(found)
+					} else {
+						results[i] = lib.Sym("any")
+					}
 				case "reindex":
 					if err := a.Reindex(); err != nil {
 						es.add("reindex: %v", err)
@@ -347,6 +554,20 @@ func main() {
 						}
 					}
 					for _, k := range unmask(init) {
+						nb := 2 + (n+k+r)%3
+						found, err := prefixSearch(a.ObjectStorage, k, nb, false)
+						if err != nil {
+							es.add("background prefix search(%d, %d bytes): %v", k, nb, err)
+						} else if !found {
+							es.add("background prefix search(%d, %d bytes): stored object not listed", k, nb)
+						}
+						if (n+k)%4 == 0 && missOK(k, nb) {
+							if _, err := prefixSearch(a.ObjectStorage, k, nb, true); err != nil {
+								es.add("background near-miss prefix search(%d, %d bytes): %v", k, nb, err)
+							}
+						}
+					}
+					for _, k := range unmask(init) {
 						ref, err := a.Reference(plumbing.ReferenceName(fmt.Sprintf("refs/heads/b%d", k)))
 						if err != nil || ref.Hash() != universe[k].h {
 							es.add("background reference read b%d: %v", k, err)
@@ -364,10 +585,19 @@ func main() {
 		wg.Wait()
 		close(stop)
 		bg.Wait()
-		// afterwards, sequentially: everything written is readable after a Reindex (sanity of the scenario)
+		// afterwards, sequentially: exact reference accounting of the published lazy indexes
+		if !o.Bool("memidx") && !c.Bool("norefs") {
+			var extra [][]byte
+			for _, t := range threads {
+				if tc := lib.AsCase(t); tc.S("kind") == "prefix" {
+					extra = append(extra, prefixOf(int(tc.I("k")), int(tc.I("n")), tc.Bool("miss")))
+				}
+			}
+			refsProbe(a.ObjectStorage, &es, init, extra)
+		}
 		outs := []lib.Out{lib.Bool(false)}
 		for i, t := range threads {
-			if lib.AsCase(t).S("kind") == "lookup" {
+			if kd := lib.AsCase(t).S("kind"); kd == "lookup" || kd == "prefix" {
 				if results[i] == nil {
 					results[i] = lib.Sym("unfinished")
 				}
